@@ -4,6 +4,7 @@ import sys, os, json, time, subprocess, argparse, random, importlib, traceback, 
 VERIF = os.path.dirname(os.path.dirname(os.path.abspath(__file__)))
 PY = os.path.join(VERIF, ".venv", "bin", "python")
 EVID = os.environ.get("VF_EVID") or os.path.join(VERIF, "evidence")   # VF_EVID: mutation trials must not overwrite the real evidence
+MULT = float(os.environ.get("VF_TIMEOUT_MULT", "2"))     # obligations are sized to exhaust well inside their nominal timeout; the margin absorbs a loaded machine
 STUBS = [
     "S-FFI: libgraphqlparser.so is absent in this sandbox; the C parser is replaced by vf/gqlfront.py (validated by the repo's functional suite, `vcheck ffi-selftest`); everything after _parse_to_json_ast is the real code",
     "S-LOOP: asyncio selector loop replaced by vf/miniloop.py (FIFO ready queue, real Task/Future/gather); pending resolver gates are released in a solver-chosen order",
@@ -101,7 +102,7 @@ def check(pid, tier, seed, only=None, jobs_n=None):
         if tier == "quick" and o.quick_shards is not None:
             shards = [shards[i] for i in o.quick_shards]
         for i, sh in shards:
-            jobs.append({"module": modname, "fn": o.name, "shard": sh, "timeout": o.timeout if tier == "quick" else o.thorough_timeout, "twin": False})
+            jobs.append({"module": modname, "fn": o.name, "shard": sh, "timeout": int((o.timeout if tier == "quick" else o.thorough_timeout) * MULT), "twin": False})
         if shards:
             jobs.append({"module": modname, "fn": o.name, "shard": shards[0][1], "timeout": min(o.timeout, 60), "twin": True})
     random.Random(seed).shuffle(jobs)
